@@ -96,6 +96,11 @@ def tcr_case(rng, tables):
     fam_b = [nc.repertoire(rng, 1, minlen=7, maxlen=13)[0] for _ in range(2)]
     va = [rng.choice(list(tables["alpha"].index[:12])) for _ in range(n)]
     vb = [rng.choice(list(tables["beta"].index[:12])) for _ in range(n)]
+    if rng.random() < 0.35:
+        # the most distant gene pairs of both tables (the largest V-gene terms the sum can contain), alternating over the rows
+        xa, xb = tables["alpha"].stack().idxmax(), tables["beta"].stack().idxmax()
+        va = [xa[i % 2] for i in range(n)]
+        vb = [xb[i % 2] for i in range(n)]
     ca = ["C" + nc.mutate(rng, rng.choice(fam_a), rng.randint(0, 2)) + "F" for _ in range(n)]
     cb = ["C" + nc.mutate(rng, rng.choice(fam_b), rng.randint(0, 2)) + "F" for _ in range(n)]
     if rng.random() < 0.2:
